@@ -42,6 +42,18 @@ TV      one pipeline per shard, two trace-validation passes around the harness:
                         KEY owners that only another notion of letter case takes for the signer (five signer names, each with an s or
                         a k, one with [ ] ^): U+017F for s, U+212A for k (raw UTF-8 in the Go string, also on the case-swapped name),
                         a non-letter moved by 0x20: other domain names, never accepted (sig0/verify-accepts-invalid:signer).
+                        Signer names whose TEXT is not as long as their wire form (every fourth random message, i % 4 = 3, all four in
+                        any 16): an escaped dot, quote and backslash, octets spelled \\DDD, and the root -- a buffer sized from
+                        len(SignerName) is wrong for these; the layout of the result is LayoutFault's as for any name, and the KEY owner
+                        variants are built below them.
+                        The octets Sign returns are the caller's (Sig0!ResultStable, event field `stable'): after every Sign the next caller
+                        signs another small message with a SIG value of his own and the same key, and at the end of the run every result
+                        is compared with what it was when it was returned (key sig0/sign-result-changed-by-later-sign).
+                        Every OTHER VALUE of an octet (finish (4), ranges Sig0!RdataFields emitted by pass 1): algorithm and labels -- all
+                        255 other values, on every accepted message: numbers of supported algorithms, of ones the library only has a name
+                        for (1, 3, 12, 16, 252 ..) and of none; all fields in front of the signature on the first two accepted messages
+                        of a pipeline (one for P-384): rejected, no panic (keys sig0/verify-panics:octet-value:<field>,
+                        sig0/verify-accepts-altered-octet:<field>).  A single bit never turns a supported number into 16.
         Quick = three parallel pipelines: the ten fixed messages; 2 x 16 random messages.
         Times: no assertion closer than 90 s to a window edge; the pipeline dies (exit 2) if it takes > 600 s.
 
@@ -63,6 +75,12 @@ Mutants (checks/mutants/C18), stage that catches each on the quick tier:
                                    sig0/sign-layout:rr-header:preset-sig-struct
   sign-keeps-rdata-fields.diff     (Sign does not reset type covered / labels / original TTL) pass 1
                                    sig0/sign-layout:rdata:preset-sig-struct
+  sign-buffer-from-text-length.diff  (seed C18-19: buffer sized from len(SignerName)+1, not resliced to PackRR's end) pass 1
+                                   sig0/sign-layout:rdlength (signers host\\.name.example.org., ., \\000\\255s.k.example., quo\\"te\\\\k.example.)
+  hash-table-off-by-one.diff       (seed C18-20: hashFromAlgorithm indexes a 16-entry table with alg <= 16) finish (4)
+                                   sig0/verify-panics:octet-value:algorithm (value 16, every accepted message)
+  sign-result-in-pooled-buffer.diff  (seed C18-21: the result aliases a sync.Pool scratch buffer) pass 1
+                                   sig0/sign-result-changed-by-later-sign (every message that fits 4096 octets with its SIG)
 """
 import os, json
 import vp
@@ -83,7 +101,7 @@ def absorb_pass(ctx, tr, events, shard):
             e = events[i - 1]
             if k.startswith("trace/"):
                 raise vp.Infra("event the trace spec cannot read: %s (event id %s)" % (k, e.get("id")))
-            brief = {f: e[f] for f in ("ev", "id", "variant", "compress", "algname", "window", "reused", "preset", "rr", "ok", "err", "errclass", "accepted", "sigvalid") if f in e}
+            brief = {f: e[f] for f in ("ev", "id", "variant", "compress", "algname", "window", "reused", "preset", "stable", "rr", "ok", "err", "errclass", "accepted", "sigvalid") if f in e}
             brief["msglen"] = len(e.get("msg") or e.get("buf") or [])
             ctx.candidate(k, "recorded %s event rejected by the specification" % e["ev"], dict(shard, id=e["id"], event=brief))
 
@@ -105,7 +123,7 @@ def pipeline(ctx, binp, tag, seed, n, algs, only=None, ar=False):
     f = ctx.run_json(binp, ["finish", ev, emit, kf, vf], env={"VERIF_SEED": str(seed)}, timeout=6000)
     for m in f.get("mismatches", []):
         if isinstance(m.get("case"), dict):
-            keep = {k: v for k, v in m["case"].items() if k in ("id", "buf", "offset", "bit", "region", "length", "of", "variant", "algname", "compress")}
+            keep = {k: v for k, v in m["case"].items() if k in ("id", "buf", "offset", "bit", "region", "length", "of", "variant", "algname", "compress", "value", "field")}
             m["case"] = dict(shard, **keep)
     vp.absorb(ctx, f)
     os.remove(kf)
